@@ -243,8 +243,7 @@ tainted<T*, T_Sbx> copy_memory_or_grant_access(rlbox_sandbox<T_Sbx>& sandbox,
                 "copy_memory_or_grant_access not supported on this type as "
                 "there may be ABI differences");
 
-  // overflow ok
-  size_t source_size = num * sizeof(T);
+  size_t source_size = detail::checked_range_size(num, sizeof(T));
 
   // sandbox can grant access if it includes the following line
   // using can_grant_deny_access = void;
@@ -308,8 +307,7 @@ T* copy_memory_or_deny_access(rlbox_sandbox<T_Sbx>& sandbox,
                 "copy_memory_or_deny_access not supported on this type as "
                 "there may be ABI differences");
 
-  // overflow ok
-  size_t source_size = num * sizeof(T);
+  size_t source_size = detail::checked_range_size(num, sizeof(T));
 
   // sandbox can grant access if it includes the following line
   // using can_grant_deny_access = void;
